@@ -73,3 +73,31 @@ Inductive mg_chain (rels : list node) : node -> node -> Prop :=
   | mg_chain_refl : forall e, mg_chain rels e e
   | mg_chain_step : forall e e' e'', mg_chain rels e e' -> In e'' rels ->
                       elem_matches e' (tagless e'') = true -> mg_chain rels e e''.
+
+(* ---- round 4 ---- *)
+(* sets=UNIQUE, "Only RHS Set elements not already in LHS Sets are appended": the right-hand
+   members that are new, in order.  [tl] = the left members in the merger's tagless form (as
+   they were before the merge); [present] = the members the Set holds so far (the left ones,
+   then every member appended before).  A member equal (tagless ==) to an original left member,
+   or equal (==) to a member present, is not new. *)
+Fixpoint mg_new_members (tl present : list node) (rels : list node) : list node :=
+  match rels with
+  | [] => []
+  | e :: r => if in_list (tagless e) tl || in_list e present then mg_new_members tl present r
+              else e :: mg_new_members tl (present ++ [e]) r
+  end.
+
+(* documents without TaggedScalars whose hash keys are Scalars (computable): on them Python's ==
+   does not look at object identity *)
+Fixpoint mg_plain (n : node) : bool :=
+  match n with
+  | NLeaf _ _ => negb (is_tagged_scalar n)
+  | NMap _ kvs => forallb (fun kv => is_leaf (fst kv) && mg_plain (fst kv) && mg_plain (snd kv)) kvs
+  | NSeq _ els => forallb mg_plain els
+  | NSet _ els => forallb mg_plain els
+  end.
+
+(* one equality instead of a chain: the element standing in the result is the original one or a
+   right-hand element equal to it *)
+Definition mg_same_or_equal (rels : list node) (e x : node) : Prop :=
+  x = e \/ (In x rels /\ node_eq e x = true).
